@@ -122,22 +122,25 @@ pub fn run(rng: &mut Rng, count: usize, thorough: bool, out: &mut Out) {
     for _ in 0..count {
         // rarely a BIG history: many labels, hundreds of operations (vectors grow, many tombstones, long index lists)
         let big = rng.chance(1, 300);
-        let usize_univ = if big { rng.range(20, 40) } else { rng.range(1, 6) };
+        // one history in sixty plans a WIDE fan: one argument attacking (or attacked by) 17-40 others - adjacency lists of
+        // more than 16 entries - with repeated (redundant) insertions and repeated (invalid) removals of its attacks
+        let wide = !big && rng.chance(1, 60);
+        let usize_univ = if big || wide { rng.range(20, 40) } else { rng.range(1, 6) };
         let universe: Vec<usize> = (1..=usize_univ).collect();
         let n_init = rng.below(usize_univ + 1);
         let mut init: Vec<usize> = Vec::new();
         for _ in 0..n_init {
             init.push(*rng.pick(&universe)); // repetitions on purpose
         }
-        let mut len = if big { rng.range(150, 400) } else if thorough { rng.range(1, 60) } else { rng.range(1, 30) };
+        let mut len = if big { rng.range(150, 400) } else if wide { rng.range(10, 60) } else if thorough { rng.range(1, 60) } else { rng.range(1, 30) };
         // one history in three starts with a planned "churn" scenario: many attacks sharing an end point
         // (or a dense graph) inserted in a random order and then removed in another random order, so that
         // the per-argument index vectors go through every swap_remove position (a random mix rarely builds
         // three attacks on one target and then removes a non-last one followed by a moved one)
         let mut planned: std::collections::VecDeque<Op> = std::collections::VecDeque::new();
-        if big || rng.chance(1, 3) {
+        if big || wide || rng.chance(1, 3) {
             // (a big history plans a dense churn over 14-20 labels: hundreds of attacks inserted, most of them removed)
-            let n = if big { rng.range(14, 20) } else { rng.range(3, 6) };
+            let n = if big { rng.range(14, 20) } else if wide { rng.range(18, usize_univ) } else { rng.range(3, 6) };
             let labs: Vec<usize> = (1..=n).collect();
             for l in labs.iter() {
                 if !init.contains(l) {
@@ -145,7 +148,7 @@ pub fn run(rng: &mut Rng, count: usize, thorough: bool, out: &mut Out) {
                 }
             }
             let hub = *rng.pick(&labs);
-            let mut pairs: Vec<(usize, usize)> = match if big { 2 } else { rng.below(3) } {
+            let mut pairs: Vec<(usize, usize)> = match if big { 2 } else if wide { rng.below(2) } else { rng.below(3) } {
                 0 => labs.iter().map(|a| (*a, hub)).collect(),            // fan-in (self-attack included)
                 1 => labs.iter().map(|b| (hub, *b)).collect(),            // fan-out
                 _ => labs.iter().flat_map(|a| labs.iter().map(move |b| (*a, *b))).collect(), // dense
@@ -154,10 +157,21 @@ pub fn run(rng: &mut Rng, count: usize, thorough: bool, out: &mut Out) {
             for (a, b) in pairs.iter() {
                 planned.push_back(Op::NewAtt(*a, *b));
             }
+            // now and then (always in a wide fan) some of the insertions are repeated: redundant, nothing may change
+            if wide || rng.chance(1, 4) {
+                for _ in 0..rng.range(1, 3) {
+                    let (a, b) = *rng.pick(&pairs);
+                    planned.push_back(Op::NewAtt(a, b));
+                }
+            }
             rng.shuffle(&mut pairs);
             let keep = rng.below(pairs.len() + 1);
             for (a, b) in pairs.iter().skip(keep.min(2)) {
                 planned.push_back(Op::RemAtt(*a, *b));
+                // a removal repeated at once: the second one is an error and changes nothing
+                if (wide && rng.chance(1, 4)) || rng.chance(1, 40) {
+                    planned.push_back(Op::RemAtt(*a, *b));
+                }
             }
             if rng.chance(1, 2) {
                 planned.push_back(Op::RemArg(hub));
